@@ -401,8 +401,10 @@ def _solved_post(f, args, res):
 
 @cases(PRISM_solve)
 def _solve_cases():
-    for n, mix in ((1, COST_MIXES[1][0]), (2, COST_MIXES[2][0])):
+    for n, mix in ((1, COST_MIXES[1][0]), (2, COST_MIXES[2][0]), (3, COST_MIXES[3][0])):
         for g in ('none', 'given'):
+            if n == 3 and g == 'given':
+                continue        # rank 3: the lower/upper triangle of the final transform is only distinguishable from here on
             def build(f, n=n, mix=mix, g=g):
                 P = mk_real_PRISM(f, n, mix)
                 N = f.getattr(f.getattr(f.getattr(P, 'sys'), 'domain'), '_length')
